@@ -6,5 +6,7 @@ for d in seeded/*/; do
   p=$(python3 -c "import json; print(json.load(open('$d/meta.json'))['property'])")
   extra=""
   case $s in C12-b) extra="C15";; C04-c) extra="C12";; C06-a|C06-b) extra="C18";; esac
-  tools/run_seed.sh $s $p $extra 2>&1 | grep -E "^seed=|does not apply|uncommitted"
+  RUN_SEED_NORESTORE=1 tools/run_seed.sh $s $p $extra 2>&1 | grep -E "^seed=|does not apply|uncommitted"
 done
+# evidence must never hold results of a seeded tree: every check once more on the restored tree
+tools/refresh_all.sh
